@@ -145,7 +145,7 @@ mod dtrait {
         Val::new(format!("{name}({a})[{}]", parts.join(",")))
     }
 
-    #[unimock(api=DMock, unmock_with=[real_r0, _, real_u2(b, a), real_u3(self, b, a), _, _, _, _, _, _, real_mm, _, _, _, _, _, _, _], const K: u8 = 1;)]
+    #[unimock(api=DMock, unmock_with=[real_r0, _, real_u2(b, a), real_u3(self, b, a), _, _, _, _, _, _, real_mm, _, _, _, _, _, _, _, _], const K: u8 = 1;)]
     pub trait D {
         const K: u8 = 2;
         fn r0(&self, a: u8) -> Val;
@@ -194,6 +194,14 @@ mod dtrait {
             Self: Sized,
         {
             Val::new(format!("dflt34({a})[{}]", self.r_val(a).take()))
+        }
+        /// like p_rc2, but the body keeps a second pointer to the helper alive across the required call: the reverse
+        /// conversion (from_delegator) then cannot take the helper apart and has to clone the mock out of it
+        fn p_rc3(self: Rc<Self>, a: u8) -> Val {
+            let keep = self.clone();
+            let r = self.r_rc(a).take();
+            drop(keep);
+            Val::new(format!("dflt35({a})[{r}]"))
         }
         /// skipped by the macro, but occupies an unmock_with slot (last, so that nothing in this trait
         /// depends on how slots after a skipped function are counted; trait T covers that)
